@@ -40,6 +40,35 @@ type c03Case struct {
 	Ver json.Number `json:"ver"`
 	Doc any         `json:"doc"`
 	Ext any         `json:"ext"` // optional: sequence of {name, doc}: the external resources
+	// Hist: how the document reaches the library.  entry "fresh" (or absent): a document line -- every reader gets a
+	// fresh receiver.  Otherwise a history line: ONE receiver (a T value, or a Loader) is filled with the prior
+	// documents, in order, and then with the document under test; entry names the way it is filled.
+	Hist *c03Hist `json:"hist"`
+}
+
+type c03Hist struct {
+	Entry string `json:"entry"`
+	Prior []struct {
+		Name string `json:"name"`
+		Doc  any    `json:"doc"`
+	} `json:"prior"`
+}
+
+func (h *c03Hist) isHistory() bool { return h != nil && h.Entry != "" && h.Entry != "fresh" }
+
+func (h *c03Hist) echo() any {
+	if h == nil {
+		return T{"entry": "fresh", "prior": []any{}}
+	}
+	prior := []any{}
+	for _, p := range h.Prior {
+		in, ok := c03Project([]byte(c03Text(p.Doc)))
+		if !ok {
+			panic("harness: cannot project own prior document")
+		}
+		prior = append(prior, T{"name": p.Name, "doc": in})
+	}
+	return T{"entry": h.Entry, "prior": prior}
 }
 
 // c03Table renders the case's external resources as JSON text, keyed by resource name.
@@ -60,11 +89,19 @@ func c03ExtEcho(ext any) any {
 }
 
 // c03Loader: a fresh loader that resolves external references from the table only.
+// A document loaded with a base location (LoadFromDataWithPath, "/w/<n>/root.json") asks for its
+// resources below that directory: the table is keyed by the part from "ext/" on.
 func c03Loader(table map[string][]byte) *openapi3.Loader {
 	loader := openapi3.NewLoader()
 	loader.IsExternalRefsAllowed = true
 	loader.ReadFromURIFunc = func(_ *openapi3.Loader, location *url.URL) ([]byte, error) {
-		if data, ok := table[location.String()]; ok {
+		name := location.String()
+		if strings.HasPrefix(name, "/w/") {
+			if i := strings.Index(name, "/ext/"); i >= 0 {
+				name = name[i+1:]
+			}
+		}
+		if data, ok := table[name]; ok {
 			return data, nil
 		}
 		return nil, fmt.Errorf("harness: no external resource %q", location.String())
@@ -72,18 +109,22 @@ func c03Loader(table map[string][]byte) *openapi3.Loader {
 	return loader
 }
 
+func c03Location(n int) *url.URL { return &url.URL{Path: fmt.Sprintf("/w/%d/root.json", n)} }
+
 func c03Run(c *Case) []any {
 	var tc c03Case
 	c.Decode(&tc)
 	ver := asInt(tc.Ver)
-	line := map[string]any{"case": c.Idx, "d": tc.D, "ver": ver, "c": tc.Doc, "ext": c03ExtEcho(tc.Ext)}
+	line := map[string]any{"case": c.Idx, "d": tc.D, "ver": ver, "c": tc.Doc, "ext": c03ExtEcho(tc.Ext), "hist": tc.Hist.echo()}
 	text := c03Text(tc.Doc)
 	in, ok := c03Project([]byte(text))
 	if !ok {
 		panic("harness: cannot project own input " + text)
 	}
 	line["in"] = in
-	if ver == 3 {
+	if tc.Hist.isHistory() {
+		line["obs"] = c03History(ver, []byte(text), c03Table(tc.Ext), tc.Hist)
+	} else if ver == 3 {
 		line["obs"] = c03Trips3([]byte(text), c03Table(tc.Ext))
 	} else {
 		line["obs"] = c03Trips2([]byte(text))
@@ -97,8 +138,16 @@ func c03Abnormal(c *Case, kind string) []any {
 	text := c03Text(tc.Doc)
 	in, _ := c03Project([]byte(text))
 	bad := T{"ok": false, "err": kind}
+	obs := T{"j1": bad}
+	if tc.Hist.isHistory() {
+		obs["jh"], obs["pr"] = bad, []any{}
+	} else {
+		for _, n := range []string{"j2", "ja", "ji", "ju", "jm"} {
+			obs[n] = bad
+		}
+	}
 	return []any{map[string]any{"case": c.Idx, "d": tc.D, "ver": asInt(tc.Ver), "c": tc.Doc, "in": in, "ext": c03ExtEcho(tc.Ext),
-		"obs": T{"j1": bad, "j2": bad, "ja": bad, "ji": bad}}}
+		"hist": tc.Hist.echo(), "obs": obs}}
 }
 
 // c03Trip runs one codec path; stage names classify failures (never by message text).
@@ -190,6 +239,76 @@ func c03Trips3(text []byte, table map[string][]byte) any {
 			y, err := oyaml.JSONToYAML(text)
 			return reload(stage, y, err)
 		})
+		// other readers, each with a fresh receiver: json.Unmarshal / yaml.Unmarshal into an openapi3.T without a
+		// loader (references stay unresolved: they are written as they were read), a loader given a base location,
+		// a loader reading a stream
+		step("ju", func(stage *string) ([]byte, error) {
+			*stage = "load"
+			var d openapi3.T
+			if err := json.Unmarshal(text, &d); err != nil {
+				return nil, err
+			}
+			*stage = "marshal"
+			return json.Marshal(&d)
+		})
+		step("jyu", func(stage *string) ([]byte, error) {
+			*stage = "to_yaml"
+			y, err := oyaml.JSONToYAML(text)
+			if err != nil {
+				return nil, err
+			}
+			*stage = "load"
+			var d openapi3.T
+			if err := oyaml.Unmarshal(y, &d); err != nil {
+				return nil, err
+			}
+			*stage = "marshal"
+			return json.Marshal(&d)
+		})
+		step("jp", func(stage *string) ([]byte, error) {
+			*stage = "load"
+			d, err := c03Loader(table).LoadFromDataWithPath(text, c03Location(0))
+			if err != nil {
+				return nil, err
+			}
+			*stage = "marshal"
+			return json.Marshal(d)
+		})
+		step("jr", func(stage *string) ([]byte, error) {
+			*stage = "load"
+			d, err := c03Loader(table).LoadFromIoReader(strings.NewReader(string(text)))
+			if err != nil {
+				return nil, err
+			}
+			*stage = "marshal"
+			return json.Marshal(d)
+		})
+		// other writers of the parsed input: the MarshalJSON method itself, and the value MarshalYAML returns
+		// (what a YAML encoder is handed) written as JSON
+		step("jm", func(stage *string) ([]byte, error) {
+			*stage = "marshal"
+			return doc1.MarshalJSON()
+		})
+		step("jy", func(stage *string) ([]byte, error) {
+			*stage = "marshal"
+			v, err := doc1.MarshalYAML()
+			if err != nil {
+				return nil, err
+			}
+			return json.Marshal(v)
+		})
+		// the reader option IncludeOrigin (a package variable; it only acts on input that is not JSON): the
+		// input as YAML text, loaded with the option on
+		step("jo", func(stage *string) ([]byte, error) {
+			*stage = "to_yaml"
+			y, err := oyaml.JSONToYAML(text)
+			if err != nil {
+				return nil, err
+			}
+			openapi3.IncludeOrigin = true
+			defer func() { openapi3.IncludeOrigin = false }()
+			return reload(stage, y, nil)
+		})
 	}
 	if len(msgs) != 0 {
 		obs["msgs"] = msgs
@@ -256,7 +375,130 @@ func c03Trips2(text []byte) any {
 			y, err := oyaml.JSONToYAML(text)
 			return fromYAML(stage, y, err)
 		})
+		// the UnmarshalJSON method itself; the writers: the T by value, the MarshalJSON method itself
+		step("ju", func(stage *string) ([]byte, error) {
+			*stage = "load"
+			var d openapi2.T
+			if err := d.UnmarshalJSON(text); err != nil {
+				return nil, err
+			}
+			*stage = "marshal"
+			return json.Marshal(&d)
+		})
+		step("jv", func(stage *string) ([]byte, error) {
+			*stage = "marshal"
+			return json.Marshal(*doc1)
+		})
+		step("jm", func(stage *string) ([]byte, error) {
+			*stage = "marshal"
+			return doc1.MarshalJSON()
+		})
 	}
+	if len(msgs) != 0 {
+		obs["msgs"] = msgs
+	}
+	return obs
+}
+
+// ---------------------------------------------------------------------------------------------
+// History lines: ONE receiver takes the prior documents and then the document under test.
+//   j1  the document under test through the canonical reader with a fresh receiver (as on document lines)
+//   pr  per prior document: did it parse
+//   jh  JSON of the receiver after the last parse
+// Entries: json / yaml / meth (UnmarshalJSON) / alt (json, yaml, json ... in turn) fill one T value;
+// loader / lpath (OpenAPI 3) use one Loader (LoadFromData; LoadFromDataWithPath with a new location each time).
+
+func c03History(ver int, text []byte, table map[string][]byte, h *c03Hist) any {
+	obs := T{}
+	msgs := T{}
+	step := func(name string, f func(stage *string) ([]byte, error)) {
+		obs[name] = c03Trip(func(stage *string) []byte {
+			b, err := f(stage)
+			if err != nil {
+				msgs[name] = c03Clip(err.Error())
+				return nil
+			}
+			return b
+		})
+	}
+	step("j1", func(stage *string) ([]byte, error) {
+		*stage = "load"
+		if ver == 3 {
+			d, err := c03Loader(table).LoadFromData(text)
+			if err != nil {
+				return nil, err
+			}
+			*stage = "marshal"
+			return json.Marshal(d)
+		}
+		var d openapi2.T
+		if err := json.Unmarshal(text, &d); err != nil {
+			return nil, err
+		}
+		*stage = "marshal"
+		return json.Marshal(&d)
+	})
+	// fill(i, data): parse data into the receiver as step i; last: marshal the receiver
+	var fill func(i int, data []byte) error
+	var last func() ([]byte, error)
+	into := func(i int, data []byte, v any, meth func([]byte) error) error {
+		entry := h.Entry
+		if entry == "alt" {
+			entry = []string{"json", "yaml"}[i%2]
+		}
+		switch entry {
+		case "json":
+			return json.Unmarshal(data, v)
+		case "yaml":
+			y, err := oyaml.JSONToYAML(data)
+			if err != nil {
+				return err
+			}
+			return oyaml.Unmarshal(y, v)
+		case "meth":
+			return meth(data)
+		}
+		panic("harness: unknown entry " + h.Entry)
+	}
+	switch {
+	case ver == 3 && (h.Entry == "loader" || h.Entry == "lpath"):
+		loader := c03Loader(table)
+		var d *openapi3.T
+		fill = func(i int, data []byte) (err error) {
+			if h.Entry == "lpath" {
+				d, err = loader.LoadFromDataWithPath(data, c03Location(i))
+			} else {
+				d, err = loader.LoadFromData(data)
+			}
+			return err
+		}
+		last = func() ([]byte, error) { return json.Marshal(d) }
+	case ver == 3:
+		var d openapi3.T
+		fill = func(i int, data []byte) error { return into(i, data, &d, d.UnmarshalJSON) }
+		last = func() ([]byte, error) { return json.Marshal(&d) }
+	default:
+		var d openapi2.T
+		fill = func(i int, data []byte) error { return into(i, data, &d, d.UnmarshalJSON) }
+		last = func() ([]byte, error) { return json.Marshal(&d) }
+	}
+	pr := []any{}
+	step("jh", func(stage *string) ([]byte, error) {
+		*stage = "prior"
+		for i, p := range h.Prior {
+			pr = append(pr, fill(i, []byte(c03Text(p.Doc))) == nil)
+		}
+		*stage = "load"
+		if err := fill(len(h.Prior), text); err != nil {
+			return nil, err
+		}
+		*stage = "marshal"
+		return last()
+	})
+	for len(pr) < len(h.Prior) { // a panic inside a prior parse: the remaining ones were not attempted
+		pr = append(pr, false)
+	}
+	obs["pr"] = pr
 	if len(msgs) != 0 {
 		obs["msgs"] = msgs
 	}
